@@ -128,18 +128,20 @@ def c4 : Content := ⟨4, 0⟩
 def c5 : Content := ⟨5, 0⟩     -- same conf as c4, other address
 def c8 : Content := ⟨8, 0⟩     -- other conf
 
-/-- non-vacuity of `retry_converges`: every kind of fault in one history (runtime command, frontend
-maps twice, haproxy.cfg, reload result), the files are stale and a reload is owed right before the
-retry, and right after it nothing is -/
+/-- non-vacuity of `retry_converges`: several kinds of fault in one history (runtime command, frontend
+maps twice, reload result, haproxy.cfg); right before the retry a rewrite AND a reload are owed, the
+files are stale, HAProxy holds yet another state (the runtime command of the last update reached it
+before haproxy.cfg failed); right after it nothing is owed -/
 example :
     let hist : List (Ev 2) := [.acq 0 c4, .hacq 0 1, .tcp 1, .upd .none,
       .rem [0], .acq 0 c5, .upd (.admin [0]), .hrem [0], .hacq 0 2, .upd .frontMaps, .upd .frontMaps,
-      .rem [0], .acq 0 c8, .upd .mainCfg, .tcp 2, .upd .reloadResult, .rem [0], .acq 0 c4, .upd .tcpMaps]
+      .tcp 2, .upd .reloadResult, .rem [0], .acq 0 c8, .upd .mainCfg]
     let w := run oD s0 {} hist
     let r := upd oD s0 .none w
-    allOk oD s0 {} hist = true ∧ w.rewriteOwed = true ∧ w.reloadOwed = true ∧ w.tcp.map = 1 ∧
-    w.g.w.disk 0 0 = some c8 ∧ w.run.back 0 = some c5 ∧ w.run.maps 0 = some (1, false) ∧
-    r.err = false ∧ r.w.g.w.disk 0 0 = some c4 ∧ r.w.run.back 0 = some c4 ∧ r.w.h.maps 0 = some (2, false) ∧
+    allOk oD s0 {} hist = true ∧ w.rewriteOwed = true ∧ w.reloadOwed = true ∧
+    w.g.w.store.items 0 = some c8 ∧ w.g.w.disk 0 0 = some c5 ∧ w.run.back 0 = some c4 ∧
+    w.h.maps 0 = some (2, false) ∧ w.run.maps 0 = some (1, false) ∧ w.run.tcpMain = 1 ∧
+    r.err = false ∧ r.w.g.w.disk 0 0 = some c8 ∧ r.w.run.back 0 = some c8 ∧ r.w.h.maps 0 = some (2, false) ∧
     r.w.run.maps 0 = some (2, false) ∧ r.w.tcp.map = 2 ∧ r.w.run.tcpMain = 2 ∧
     r.w.rewriteOwed = false ∧ r.w.reloadOwed = false := by decide
 
@@ -267,26 +269,40 @@ theorem queue_does_not_help_a_failed_write :
 
 /-! ### regenerated facts: the Go source still has the shape the model assumes -/
 
-/-- `HAProxyUpdate` defers `Commit()` before anything else, shrinks, then runs the four writers in the
-modelled order, each returning at once on error; the dynamic updater; the gate in front of
-`writeConfig`; `updated` returns nil; the reload queue gets `Add`, otherwise `Reload` is returned.
-`Reload` has one error path.  `Reconcile` swallows the error and asks for the same item again after
-`ReloadRetry`; the queue worker puts its item back.  Runtime commands need committed data.  Files
-are written in place with `os.WriteFile` after every template of the set was executed. -/
+/-- `HAProxyUpdate` defers `Commit()` before anything else, shrinks, takes `rewrite := i.rewriteOwed`, sets
+the flag, forces the rewrite when it was set; then the four writers in the modelled order, each returning
+at once on error; the dynamic updater, `updated = false` when rewriting; the gate in front of
+`writeConfig`; `rewriteOwed = false` once past it; a reload that is owed overrides `updated`; `updated`
+returns nil; the reload queue gets `Add`, otherwise `Reload` is returned.  `Reload` sets / clears
+`reloadOwed`.  `ForceRewrite` = rewriteAll + `frontend.Maps = nil` + `AllShardsChanged`; the tcp-maps and
+backend-maps guards listen to rewriteAll, WriteBackendMaps then visits `Items()`; `Commit` resets it.
+`Reconcile` swallows the error and asks for the same item again after `ReloadRetry`; the queue worker
+puts its item back.  Runtime commands need committed data.  Files are written in place with
+`os.WriteFile` after every template of the set was executed. -/
 theorem facts_c12 :
     Facts.c12UpdateStmts = ["if:i.config==nil=>return:nil", "defer:i.config.Commit", "call:i.config.SyncConfig",
-      "call:i.config.Shrink",
+      "call:i.config.Shrink", "assign:rewrite:=i.rewriteOwed", "assign:i.rewriteOwed=true",
+      "if:rewrite{i.config.ForceRewrite}",
       "if-init:i.config.WriteTCPServicesMaps();err!=nil=>return:fmt.Errorf",
       "if-init:i.config.WriteFrontendMaps();err!=nil=>return:fmt.Errorf",
       "if-init:i.config.WriteBackendMaps();err!=nil=>return:fmt.Errorf",
       "if-init:i.writeCrtLists();err!=nil=>return:fmt.Errorf",
-      "call:timer.Tick", "if:!i.options.fake", "assign:i.newDynUpdater()", "assign:updater.update()",
-      "if:i.options.SortEndpointsBy!=\"random\"", "call:i.config.Backends().FillSourceIPs",
-      "if:!updated||updater.cmdCnt>0||i.config.Backends().Changed()", "call:i.updateCertExpiring", "defer:?",
+      "call:timer.Tick", "if:!i.options.fake", "assign:updater:=i.newDynUpdater()", "assign:updated:=updater.update()",
+      "if:rewrite{updated=false}",
+      "if:i.options.SortEndpointsBy!=\"random\"{i.config.Backends().SortChangedEndpoints}",
+      "call:i.config.Backends().FillSourceIPs",
+      "if:!updated||updater.cmdCnt>0||i.config.Backends().Changed()", "assign:i.rewriteOwed=false",
+      "call:i.updateCertExpiring", "defer:?", "if:updated&&i.reloadOwed{updated=false}",
       "if:updated=>return:nil", "if:i.options.ReloadQueue!=nil=>return:nil", "return:i.Reload(timer)"] ∧
-    Facts.c12ReloadStmts = ["if:i.options.TrackInstances", "assign:i.reloadHAProxy()", "if:err!=nil=>return:fmt.Errorf",
-      "assign:true", "assign:\"haproxy successfully reloaded\"", "if:i.options.IsExternal",
+    Facts.c12ReloadStmts = ["if:i.options.TrackInstances", "assign:err:=i.reloadHAProxy()",
+      "if:err!=nil{i.reloadOwed=true}=>return:fmt.Errorf", "assign:i.reloadOwed=false", "assign:i.up=true",
+      "assign:message:=\"haproxy successfully reloaded\"", "if:i.options.IsExternal",
       "if:i.options.TrackInstances", "return:nil"] ∧
+    Facts.c12ForceRewrite = ["c.rewriteAll=true", "c.frontend.Maps=nil", "c.backends.AllShardsChanged"] ∧
+    Facts.c12TcpMapsGuard = ["!c.tcpservices.Changed()&&!c.rewriteAll"] ∧
+    Facts.c12BackendMapsGuard = ["!c.backends.Changed()&&!c.rewriteAll"] ∧
+    Facts.c12BackendMapsVisited = [":=c.backends.ItemsAdd()", "=c.backends.Items()"] ∧
+    Facts.c12CommitResets = ["c.rewriteAll=false"] ∧
     Facts.c12ReconcileRequeue = ["RequeueAfter=r.Config.ReloadRetry"] ∧
     Facts.c12ReconcileCalls = ["r.watchers.getChangedObjects", "r.Services.ReconcileIngress", "r.log.Error",
       "r.Config.ReloadRetry.String"] ∧
